@@ -2,7 +2,7 @@
     observed on the implementation) and [prop_b] (the OBSERVED tables and lookup results satisfy
     the property, evaluated against the specification notions dense / unique / complete /
     resolve / inverse / aligned, not by calling the model's [build]). *)
-From BV Require Export Base.Common Model.Index.
+From BV Require Export Base.Common Model.Index Model.ExecMap.
 
 (** results of the find_xxx probes.  [p_as] / [p_in]: the position, in assets() / instruments(),
     of the entry whose value the returned reference points to. *)
@@ -23,12 +23,22 @@ Record tables := mkTables {
   t_tx      : list (N * bool);             (* ExecutionBuild.execution_tx_map : (exchange, is_some) *)
   t_txfind  : list (N * bool) }.           (* ExecutionTxMap::find(ExchangeIndex(i)).is_ok() *)
 
+(** lookups observed on generate_execution_instrument_map(collection, e): the execution-link
+    table of exchange [e] *)
+Record xmap_obs := mkXMap {
+  xm_as_name : list (N * option N);   (* find_asset_name_exchange k, every global asset index *)
+  xm_as_ix   : list (N * option N);   (* find_asset_index name, every exchange name of the case *)
+  xm_in_name : list (N * option N);   (* find_instrument_name_exchange k, every global index *)
+  xm_in_ix   : list (N * option N) }. (* find_instrument_index name *)
+
 Inductive case :=
 | CIdx (defs : list def) (built : option indexed) (base : option indexed)
        (pr : probes) (tb : option tables)
     (* built = IndexedInstruments::new(defs) (None = panic); base = the same on the definitions
        stably sorted by key; probes and tables observed on [built] *)
-| CPerm (defs : list def) (tried : N) (distinct : list (list N * option indexed)).
+| CPerm (defs : list def) (tried : N) (distinct : list (list N * option indexed))
+| CXMap (defs : list def) (built : option indexed) (maps : list (N * option xmap_obs)).
+    (* per exchange of the case universe: None = no map (exchange not indexed) *)
     (* [tried] insertion orders of [defs] were built; [distinct] lists every distinct result
        together with the first order (as positions into [defs]) that produced it *)
 
@@ -80,6 +90,12 @@ Definition apply_perm (perm : list N) (defs : list def) : list def :=
 
 Definition canon (defs : list def) : list def := sort d_rank N.ltb defs.
 
+Definition xmap_corr (m : emap) (o : xmap_obs) : bool :=
+  forallb (fun q => oN_eqb (find_asset_name m (fst q)) (snd q)) (xm_as_name o) &&
+  forallb (fun q => oN_eqb (find_asset_ix m (fst q)) (snd q)) (xm_as_ix o) &&
+  forallb (fun q => oN_eqb (find_instrument_name m (fst q)) (snd q)) (xm_in_name o) &&
+  forallb (fun q => oN_eqb (find_instrument_ix m (fst q)) (snd q)) (xm_in_ix o).
+
 Definition corr_b (c : case) : bool :=
   match c with
   | CIdx defs built base pr tb =>
@@ -91,6 +107,18 @@ Definition corr_b (c : case) : bool :=
       end
   | CPerm defs tried distinct =>
       forallb (fun pr => option_eqb indexed_eqb (build (apply_perm (fst pr) defs)) (snd pr)) distinct
+  | CXMap defs built maps =>
+      option_eqb indexed_eqb (build defs) built &&
+      match build defs with
+      | None => match maps with [] => true | _ => false end
+      | Some x =>
+          forallb (fun em : N * option xmap_obs =>
+                     match gen_map x (fst em), snd em with
+                     | None, None => true
+                     | Some m, Some o => xmap_corr m o
+                     | _, _ => false
+                     end) maps
+      end
   end.
 
 (* ---- oracle ----------------------------------------------------------------------------- *)
@@ -218,6 +246,45 @@ Definition links_ok (x : indexed) (t : tables) : bool :=
                        | None => false
                        end)) (t_txfind t).
 
+(** owner and exchange name of an index, read from the observed global tables: the (index, name)
+    pairs owned by exchange [e] *)
+Definition own_instruments (x : indexed) (e : N) : list (N * N) :=
+  flat_map (fun kv : N * instr (N * N) N =>
+              if N.eqb (snd (i_ex (snd kv))) e then [(fst kv, i_ne (snd kv))] else []) (x_instruments x).
+Definition own_assets (x : indexed) (e : N) : list (N * N) :=
+  flat_map (fun kv : N * akey =>
+              if N.eqb (fst (snd kv)) e then [(fst kv, snd (snd (snd kv)))] else []) (x_assets x).
+Definition name_of (own : list (N * N)) (k : N) : option N :=
+  option_map snd (find (fun kn => N.eqb (fst kn) k) own).
+Definition index_of (own : list (N * N)) (n : N) : option N :=
+  option_map fst (find (fun kn => N.eqb (snd kn) n) own).
+
+(** index -> name probes: a translated index is an own index and carries its own name; an own
+    index translates when names are distinct; name -> index probes invert them *)
+Definition names_ok (hyp : bool) (own : list (N * N)) (by_index by_name : list (N * option N)) : bool :=
+  forallb (fun q => match snd q with
+                    | Some n => oN_eqb (name_of own (fst q)) (Some n) &&
+                                forallb (fun q' => negb (N.eqb (fst q') n) || oN_eqb (snd q') (Some (fst q))) by_name
+                    | None => match name_of own (fst q) with
+                              | Some _ => negb hyp      (* an own index must translate *)
+                              | None => true            (* foreign / unknown: must not *)
+                              end
+                    end) by_index &&
+  forallb (fun q => match snd q with
+                    | Some k => oN_eqb (name_of own k) (Some (fst q)) &&
+                                forallb (fun q' => negb (N.eqb (fst q') k) || oN_eqb (snd q') (Some (fst q))) by_index
+                    | None => negb (memb N.eqb (fst q) (map snd own))
+                    end) by_name.
+
+
+(** the execution-link table of exchange [e] holds, at every global index owned by [e], exactly
+    that entity's exchange name (when names are distinct within the exchange), nothing at any
+    other index, and its name -> index lookup is the inverse *)
+Definition xmap_ok (x : indexed) (e : N) (o : xmap_obs) : bool :=
+  let hyp := names_distinct_b x e in
+  names_ok hyp (own_assets x e) (xm_as_name o) (xm_as_ix o) &&
+  names_ok hyp (own_instruments x e) (xm_in_name o) (xm_in_ix o).
+
 (** [awf]: asset-name hypothesis holds; [iexwf] / [iwf]: instrument-name hypotheses hold *)
 Definition prop_b (c : case) : bool :=
   match c with
@@ -240,10 +307,20 @@ Definition prop_b (c : case) : bool :=
       | [(_, Some _)] => negb (N.eqb tried 0)
       | _ => false
       end
+  | CXMap defs built maps =>
+      match built with
+      | None => false
+      | Some x =>
+          forallb (fun em : N * option xmap_obs =>
+                     match snd em with
+                     | None => negb (memb N.eqb (fst em) (map snd (x_exchanges x)))
+                     | Some o => memb N.eqb (fst em) (map snd (x_exchanges x)) && xmap_ok x (fst em) o
+                     end) maps
+      end
   end.
 
 Definition defs_of (c : case) : list def :=
-  match c with CIdx d _ _ _ _ => d | CPerm d _ _ => d end.
+  match c with CIdx d _ _ _ _ => d | CPerm d _ _ => d | CXMap d _ _ => d end.
 
 (** The abstract instrument key supplied by the harness must be faithful (equal key = equal
     definition), otherwise the case is reported as a disagreement.  Cases violating the
